@@ -199,13 +199,46 @@ def _callee_substitutions(ccls):
 
     subs = {}
     for callee_contract in getattr(ccls, "uses", []) or []:
+        case_map = None
+        if isinstance(callee_contract, tuple):
+            callee_contract, case_map = callee_contract
         obj, owner, module = extract.lookup(callee_contract.target)
         fn = extract.raw_function(obj)
-        subs[fn] = make_substitution(callee_contract)
+        subs[fn] = make_substitution(callee_contract, case_map)
     return subs
 
 
+def _run_lemma(ccls, case_name, case, res, goal_rlimit):
+    """Lemma unit: goals are z3 formulas built by the contract from live class constants (no code path)."""
+    from .core import Obligation, solve_obligation, GOAL_RLIMIT
+
+    obj, owner, module = extract.lookup(ccls.target)
+    path, sha, _ = None, None, None
+    import inspect as _i
+    src = _i.getsourcefile(obj if isinstance(obj, type) else module)
+    tree, sha, _ = extract.parse_file(src)
+    res.functions[ccls.target] = {"function": ccls.target, "file": src, "sha256": sha, "lines": None}
+    label = f"{ccls.prop}/{ccls.target}[{case_name}]"
+    goals = ccls.goals(**case)
+    for name, (hyps, goal, mvars) in goals.items():
+        ob = Obligation(f"{label}/{name}", list(hyps), goal, [], "lemma")
+        solve_obligation(ob, goal_rlimit or GOAL_RLIMIT, mvars)
+        res.solver_seconds += ob.seconds
+        d = {"name": ob.name, "verdict": ob.verdict, "backend": ob.solver, "seconds": round(ob.seconds, 4),
+             "reason": ob.reason, "model": ob.model, "path": "lemma"}
+        if ob.verdict == "refuted" and hasattr(ccls, "replay"):
+            try:
+                d["replay"] = ccls.replay(case, name, ob.model or {})
+            except Exception:
+                d["replay"] = {"status": "replay-error", "detail": traceback.format_exc()}
+        res.obligations.append(d)
+    res.canary = "lemma"
+    res.paths = 0
+
+
 def _run_unit(ccls, case_name, case, res, goal_rlimit):
+    if getattr(ccls, "lemma", False):
+        return _run_lemma(ccls, case_name, case, res, goal_rlimit)
     fn, defcls, info, obj = resolve_target(ccls, case)
     res.functions[ccls.target] = info.describe()
     ex = Explorer(**({"goal_rlimit": goal_rlimit} if goal_rlimit else {}))
@@ -226,6 +259,7 @@ def _run_unit(ccls, case_name, case, res, goal_rlimit):
         I = Interp(path, callee_contracts=subs, codec_tables=codec_tables() if callable(codec_tables) else codec_tables)
         I.loop_specs = {k: v for k, v in loops.items() if isinstance(k, str)}
         I.case = case
+        I.unit_label = label
         frame = Frame(fn.__globals__, defcls, None, info)
         args = {}
         for p in params:
@@ -250,6 +284,11 @@ def _run_unit(ccls, case_name, case, res, goal_rlimit):
         ns = dict(args)
         ns["old"] = old_ns
         ns["case"] = I.lift(case)
+        # lemma-backed axioms (each lemma is a separately verified unit)
+        ax = getattr(ccls, "axioms", None)
+        if ax is not None:
+            for h in (ax(**case) if case else ax()):
+                path.assume(h)
         # preconditions
         for name, f in requires:
             v = I.call_value(f, bind_by_name(f, ns), {})
@@ -356,7 +395,10 @@ def replay(ccls, case, model):
             args[p] = make_concrete(specs[p], p, model)
         else:
             args[p] = _default_for(fn, info, p)
-    old = types.SimpleNamespace(**copy.deepcopy(args))
+    try:
+        old = types.SimpleNamespace(**copy.deepcopy(args))
+    except Exception:
+        old = types.SimpleNamespace(**{k: _shallow(v) for k, v in args.items()})
     ns = dict(args)
     ns["old"] = old
     ns["case"] = case
@@ -401,6 +443,15 @@ def replay(ccls, case, model):
         "inputs": shown,
         "observed": {"outcome": outcome, "value": _show(value)},
     }
+
+
+def _shallow(v):
+    try:
+        o = object.__new__(type(v))
+        o.__dict__.update(copy.deepcopy(dict(vars(v))))
+        return o
+    except Exception:
+        return v
 
 
 def _show(v, depth=0):
